@@ -112,20 +112,28 @@ theorem iteration_ok {b : Backend σ} {sp : Space} {obj : Obj} {c : Call} {i : N
                 iterT := by simp, clock := by simp, nCalls := by simp, nInits := by simp, shared := by simp
                 pbar := by simp, mem := by simp, calls := by simp, fresh := by simp, stop := by simp, nInitsNorm := by simp }
 
+/-- how the backend was driven during one step: `init_pos` then `evaluate_init` in an initialisation step;
+    (possibly `finish_initialization`, then) `iterate` then `evaluate` in an iteration step -/
+def BStep (b : Backend σ) (isInit : Prop) (s s' : σ) (p : Pos) (score : F) : Prop :=
+  (isInit ∧ ∃ s1, b.initPos s = .ok (p, s1) ∧ b.evalInit s1 score = .ok s') ∨
+  (¬ isInit ∧ ∃ s0 s1, (s0 = s ∨ b.finishInit s = .ok s0) ∧ b.iterate s0 = .ok (p, s1) ∧ b.evaluate s1 score = .ok s')
+
 /-- one `search_step(i)` driven in sequence: exactly one evaluation, exactly one of the two phases -/
-structure StepFrame (sp : Space) (obj : Obj) (c : Call) (i : Nat) (d d' : DState σ) (cs cs' : CState) : Prop where
+structure StepFrame (b : Backend σ) (sp : Space) (obj : Obj) (c : Call) (i : Nat) (d d' : DState σ) (cs cs' : CState) : Prop where
   facts : ∃ p v e, StepFacts sp obj c i d d' cs cs' p v e ∧
     (if i < cs.nInitsNorm then d'.trace = d.trace ++ [Ev.initPos p, Ev.evalInit e.res.score]
      else d'.trace = d.trace ++ [Ev.iterate p, Ev.evaluate e.res.score] ∨
-          d'.trace = d.trace ++ [Ev.finishInit, Ev.iterate p, Ev.evaluate e.res.score])
+          d'.trace = d.trace ++ [Ev.finishInit, Ev.iterate p, Ev.evaluate e.res.score]) ∧
+    BStep b (i < cs.nInitsNorm) d.bst d'.bst p e.res.score
   nInitTotal : d'.nInitTotal = d.nInitTotal + (if i < cs.nInitsNorm then 1 else 0)
   nIterTotal : d'.nIterTotal = d.nIterTotal + (if i < cs.nInitsNorm then 0 else 1)
   nInitSearch : cs'.nInitSearch = min (i + 1) cs.nInitsNorm
+  lt : i < c.nIter
 
 theorem searchStep_frame {b : Backend σ} {sp : Space} {obj : Obj} {c : Call} {i : Nat}
     {d d' : DState σ} {cs cs' : CState}
     (hinv : cs.nInitSearch = min i cs.nInitsNorm) (hi : i < c.nIter)
-    (h : searchStep b sp obj c i d cs = .ok (d', cs')) : StepFrame sp obj c i d d' cs cs' := by
+    (h : searchStep b sp obj c i d cs = .ok (d', cs')) : StepFrame b sp obj c i d d' cs cs' := by
   unfold searchStep stepTail at h
   simp only [bind, Except.bind, pure, Except.pure] at h
   by_cases hlt : i < cs.nInitsNorm
@@ -135,16 +143,16 @@ theorem searchStep_frame {b : Backend σ} {sp : Space} {obj : Obj} {c : Call} {i
     · simp at h
     · rename_i x hx
       obtain ⟨d1, cs1⟩ := x
-      obtain ⟨p, v, e, sf, h1, h2, h3, _, htr, _⟩ := initialization_ok hx
+      obtain ⟨p, v, e, sf, h1, h2, h3, _, htr, bst1, hb1, hb2⟩ := initialization_ok hx
       have h1' : cs1.nInitSearch = i + 1 := by rw [h3, hinv]; omega
       have hne : ¬ (i = cs1.nInitSearch) := by omega
       have hnle : ¬ (cs1.nInitSearch ≤ i ∧ i < c.nIter) := by omega
       simp only [if_neg hne, if_neg hnle, Except.ok.injEq, Prod.mk.injEq] at h
       obtain ⟨hd, hcs⟩ := h
       subst hd; subst hcs
-      exact { facts := ⟨p, v, e, sf, by simp [hlt, htr]⟩
+      exact { facts := ⟨p, v, e, sf, by simp [hlt, htr], Or.inl ⟨hlt, bst1, hb1, hb2⟩⟩
               nInitTotal := by simp [h1, hlt], nIterTotal := by simp [h2, hlt]
-              nInitSearch := by rw [h1']; omega }
+              nInitSearch := by rw [h1']; omega, lt := hi }
   · -- iteration phase
     simp only [if_neg hlt] at h
     have h0 : cs.nInitSearch = cs.nInitsNorm := by rw [hinv]; omega
@@ -155,21 +163,22 @@ theorem searchStep_frame {b : Backend σ} {sp : Space} {obj : Obj} {c : Call} {i
       · simp at h
       · rename_i bst hb
         simp only [if_pos hle] at h
-        obtain ⟨p, v, e, sf, h1, h2, h3, _, htr, _⟩ := iteration_ok h
+        obtain ⟨p, v, e, sf, h1, h2, h3, _, htr, bst1, hb1, hb2⟩ := iteration_ok h
         exact { facts := ⟨p, v, e,
                   { hv := sf.hv, he := by simpa using sf.he, rows := by simpa using sf.rows, posL := by simpa using sf.posL
                     scoreL := by simpa using sf.scoreL, evalT := by simpa using sf.evalT, iterT := by simpa using sf.iterT
                     clock := by simpa using sf.clock, nCalls := by simpa using sf.nCalls, nInits := by simpa using sf.nInits
                     shared := by simpa using sf.shared, pbar := sf.pbar, mem := sf.mem, calls := sf.calls, fresh := sf.fresh
                     stop := sf.stop, nInitsNorm := sf.nInitsNorm },
-                  by simp only [if_neg hlt]; right; simpa using htr⟩
+                  by simp only [if_neg hlt]; right; simpa using htr,
+                  Or.inr ⟨hlt, bst, bst1, Or.inr hb, by simpa using hb1, hb2⟩⟩
                 nInitTotal := by simpa [hlt] using h1, nIterTotal := by simpa [hlt] using h2
-                nInitSearch := by rw [h3, h0]; omega }
+                nInitSearch := by rw [h3, h0]; omega, lt := hi }
     · simp only [if_neg heq, if_pos hle] at h
-      obtain ⟨p, v, e, sf, h1, h2, h3, _, htr, _⟩ := iteration_ok h
-      exact { facts := ⟨p, v, e, sf, by simp only [if_neg hlt]; left; exact htr⟩
+      obtain ⟨p, v, e, sf, h1, h2, h3, _, htr, bst1, hb1, hb2⟩ := iteration_ok h
+      exact { facts := ⟨p, v, e, sf, by simp only [if_neg hlt]; left; exact htr, Or.inr ⟨hlt, d.bst, bst1, Or.inl rfl, hb1, hb2⟩⟩
               nInitTotal := by simpa [hlt] using h1, nIterTotal := by simpa [hlt] using h2
-              nInitSearch := by rw [h3, h0]; omega }
+              nInitSearch := by rw [h3, h0]; omega, lt := hi }
 
 /-! ### runs of steps -/
 
@@ -195,8 +204,8 @@ theorem LoopFrame.refl (i : Nat) (d : DState σ) (cs : CState) (hinv : cs.nInitS
     nInitTotal := by simp, nIterTotal := by simp, nInits := rfl, shared := rfl, stop := rfl
     nInitSearch := hinv, nInitsNorm := rfl }
 
-theorem LoopFrame.step {sp : Space} {obj : Obj} {c : Call} {i k : Nat} {d d1 d' : DState σ} {cs cs1 cs' : CState}
-    (hs : StepFrame sp obj c i d d1 cs cs1) (hl : LoopFrame (i + 1) k d1 d' cs1 cs') (hik : i + 1 ≤ k) :
+theorem LoopFrame.step {b : Backend σ} {sp : Space} {obj : Obj} {c : Call} {i k : Nat} {d d1 d' : DState σ} {cs cs1 cs' : CState}
+    (hs : StepFrame b sp obj c i d d1 cs cs1) (hl : LoopFrame (i + 1) k d1 d' cs1 cs') (hik : i + 1 ≤ k) :
     LoopFrame i k d d' cs cs' := by
   obtain ⟨p, v, e, sf, _⟩ := hs.facts
   obtain ⟨new, hnew⟩ := hl.rowsPrefix
